@@ -65,6 +65,10 @@ CHECKS["C09"] = dict(category="proof",
    technique="Lean 4 theorems about Model.DelayQueue (ownership protocol of BasicDelayedEventQueue, all interleavings of the timer callback with any number of cancellers), tied to the compiled queue by replaying the observed order of its atomic sections (USCXML_VERIF trace hook) under forced schedules (schedule hooks) through the model; chart-level oracle for delayed send / cancel",
    text="Proved for every schedule: no use after free or double free, at most one delivery and never before the due time, an event a cancel found is never delivered (whenever in the race the cancel came), a delivered event is never delivered again, and no reachable state is dead-locked; the pre-repair protocol provably dead-locks (two witnesses). The tie: the real queue runs scripts with sleeps injected at its protocol points; the sequence of locked sections it actually executed must be a run of the model with the same outcome. Timing itself (libevent fires when due, in due order) is trusted and cross-checked on the log with a 3 ms granularity.",
    design_ref="6 / C09", note="Trusted: Lean kernel; hand model Model.DelayQueue; libevent's timer and event_del semantics; the dq harness and the log-to-action conversion in checks/c09.py.")
+CHECKS["C08"] = dict(category="proof",
+   technique="Lean 4 theorems about Model.EventQueue (all interleavings of atomic enqueue/dequeue) and about when Model.Large/Fast.step take events from which queue; tied to the code by I = M on operation sequences with several external events pending, and by a multi-producer stress harness on the ThreadSanitizer build with an exactly-once / per-sender-order / internal-before-external oracle",
+   text="Proved: the queue delivers exactly the enqueued events, once, in lock order, per-sender order kept, for every schedule of any number of threads; the micro-steppers take an external event only at a macrostep boundary (internal queue empty, no eventless transition pending, stable configuration reported), process internal events in raise order and external ones in arrival order. The atomicity of enqueue/dequeue (one mutex) and the absence of data races are runtime facts: explored with ThreadSanitizer and producer threads, not proved.",
+   design_ref="6 / C08", note="Trusted: Lean kernel; hand models Model.EventQueue, Model.Large/Fast; the threads harness and its oracle; ThreadSanitizer. Partial: thread interleavings are sampled.")
 PENDING = {}   # id -> reason (filled while the framework is being built)
 
 def main():
